@@ -59,6 +59,11 @@ pub struct GenCfg {
     pub pubrel_variants: bool,
     /// Percentage of publishes padded beyond the announced Maximum Packet Size.
     pub oversize_pct: u64,
+    /// Reads return everything available (several delivered chunks at once).
+    pub coalesce: bool,
+    /// The client's own CONNECT Receive Maximum / Maximum Packet Size (limits for the server).
+    pub own_receive_max: Option<u16>,
+    pub own_max_packet: Option<u32>,
 }
 
 impl GenCfg {
@@ -117,6 +122,9 @@ impl GenCfg {
             rich: false,
             pubrel_variants: false,
             oversize_pct: 0,
+            coalesce: rng.chance(1, 4),
+            own_receive_max: None,
+            own_max_packet: None,
         }
     }
 
@@ -163,6 +171,7 @@ pub struct Gen<'a> {
     /// Deliver the next broker packets whole and at once (set around steps that must arrive).
     pub force_whole: bool,
     id_jumped: bool,
+    last_qos1: Option<usize>,
 }
 
 impl<'a> Gen<'a> {
@@ -173,6 +182,7 @@ impl<'a> Gen<'a> {
             scribble: cfg.scribble,
             handles: cfg.handles,
             preset_ids: cfg.preset_ids,
+            coalesce: cfg.coalesce,
         };
         let world = World::new(config.clone());
         Gen {
@@ -191,6 +201,7 @@ impl<'a> Gen<'a> {
             config,
             force_whole: false,
             id_jumped: false,
+            last_qos1: None,
         }
     }
 
@@ -250,7 +261,15 @@ impl<'a> Gen<'a> {
     }
 
     pub fn connect_spec(&self) -> ConnectSpec {
-        ConnectSpec { client_id: Some("sim".into()), session_expiry: self.cfg.session_expiry, ..Default::default() }
+        // the client's own receive-side limits (what it asks of the server) must never govern
+        // what the client itself sends
+        ConnectSpec {
+            client_id: Some("sim".into()),
+            session_expiry: self.cfg.session_expiry,
+            receive_maximum: self.cfg.own_receive_max,
+            maximum_packet_size: self.cfg.own_max_packet,
+            ..Default::default()
+        }
     }
 
     /// Start, CONNACK, settle: the client is serving afterwards. One run in eight gets there
@@ -498,6 +517,20 @@ impl<'a> Gen<'a> {
                 return;
             }
         }
+        if qos == 1 && self.rng.chance(1, 6) {
+            // the broker sends a QoS 1 message again (same identifier and content, DUP=1), e.g.
+            // because it has not seen the PUBACK yet: at-least-once, so it is delivered again
+            if let Some(j) = self.last_qos1 {
+                if let Some(Step::Broker { pkt: BrokerPkt::Publish { subs, qos, retain, topic, payload, props, .. }, .. }) = self.nth_inbound_publish_step(j).cloned() {
+                    // (huge messages are not sent twice: in small chunks they cost seconds)
+                    if payload.len() <= 10_000 {
+                        self.inbound_count += 1;
+                        self.broker(BrokerPkt::Publish { subs, qos, id: IdSpec::SameAs(j), dup: true, retain, topic, payload, props });
+                        return;
+                    }
+                }
+            }
+        }
         if qos > 0 && self.rng.chance(1, 8) {
             dup = true;
         }
@@ -536,6 +569,9 @@ impl<'a> Gen<'a> {
         if qos == 2 {
             self.unreleased.push(n);
         }
+        if qos == 1 {
+            self.last_qos1 = Some(n);
+        }
         self.inbound_count += 1;
         let retain = self.rng.chance(1, 5);
         if plen > 10_000 {
@@ -546,6 +582,30 @@ impl<'a> Gen<'a> {
             return;
         }
         self.broker(BrokerPkt::Publish { subs, qos, id, dup, retain, topic: format!("in/{n}"), payload, props });
+    }
+
+    /// Inbound QoS 2 publishes (injection index) the broker script has not released yet.
+    pub fn unreleased_inbound(&self) -> Vec<usize> {
+        self.unreleased.clone()
+    }
+
+    /// A *new* QoS 2 message for subscription `op` that reuses the identifier of inbound
+    /// publish number `j` (legal once the session that knew the identifier is gone).
+    pub fn inbound_qos2_reusing(&mut self, op: usize, j: usize) {
+        let n = self.inbound_count;
+        self.inbound_count += 1;
+        self.unreleased.retain(|x| *x != j);
+        self.unreleased.push(n);
+        self.broker(BrokerPkt::Publish {
+            subs: vec![SubRef::Op(op)],
+            qos: 2,
+            id: IdSpec::SameAs(j),
+            dup: false,
+            retain: false,
+            topic: format!("in/{n}"),
+            payload: format!("m{n}:new-session").into_bytes(),
+            props: Props::new(),
+        });
     }
 
     /// One small QoS 0 message addressed to the subscription of operation `op`.
